@@ -275,7 +275,8 @@ class DiagLinearOperator(TriangularLinearOperator):
         evals, evecs = self._symeig(eigenvectors=True)
         S = torch.abs(evals)
         U = evecs
-        V = evecs * torch.sign(evals).unsqueeze(-1)
+        # the eigenvectors are the identity: V only carries the signs (zero entries keep a unit vector)
+        V = DiagLinearOperator(torch.where(evals < 0, -torch.ones_like(evals), torch.ones_like(evals)))
         return U, S, V
 
     def _symeig(
